@@ -1,18 +1,43 @@
-(* Property C06: sparse state preparation.  PARTIAL: one CVO-QRAM iteration is a theorem (any number of qubits, any
-   pattern, any already-loaded part that vanishes on flag = 1 and on states containing the current control set - which is
-   what the Hamming-weight order guarantees); the loop structure is tied by gate-list correspondence (CvoModel) and the
-   amplitude recurrence x_j = U_j[0,1] g_j, g_(j+1) = U_j[1,1] g_j by a runtime contract; merge and pivot are evaluated. *)
+(* Property C06: sparse state preparation.  CVO-QRAM without auxiliary qubits is proved END TO END on the gate list of the
+   model (the one compared with CvoqramInitialize on every run), for every n, every number of patterns and every family of
+   2x2 matrices U_j, MODULO the multi-controlled U being the ideal gate (C04): from |0..0> the circuit yields
+   sum_j x_j |pattern_j>|flag=0> + g_m |last pattern>|flag=1> with x_j = U_j[0,1] g_j, g_(j+1) = U_j[1,1] g_j, g_0 = 1,
+   provided no later pattern's control set is contained in an earlier pattern (executable premise `ordered_b`, implied by
+   the Hamming-weight order, evaluated on every compared instance).  The runtime contract checks that the emitted U_j give
+   x_j = the requested amplitudes and g_m = 0.  The auxiliary-qubit ladder, merge and pivot are evaluated. *)
 From Coq Require Import Reals List Bool Arith NArith.
 From Coquelicot Require Import Complex.
-From QV Require Import Sem Mat2 Toff2 Chain Cvoqram.
+From QV Require Import Sem Mat2 Toff2 Chain UcrPlaced TopDownWalk Cvoqram CvoLoop CvoModel CvoGates.
 Import ListNotations.
 
 Theorem C06_cvo_step : forall (u : nat) (ctl : list nat), ~ In u ctl -> NoDup ctl ->
   forall (Um : mat2) (L : state) (g : C),
-  (forall b, get b u = true -> L b = 0) ->
-  (forall b, allset ctl b = true -> L b = 0) ->
+  (forall b, get b u = true -> L b = RtoC 0) ->
+  (forall b, allset ctl b = true -> L b = RtoC 0) ->
   forall b,
   step u ctl Um (fun b => L b + g * delta b (eu u))%C b =
   (L b + (mget Um false true * g) * delta b (Pat ctl) + (mget Um true true * g) * delta b (eu u))%C.
 Proof. intros u ctl H1 H2 Um L g H3 H4 b. now apply cvo_step. Qed.
 Print Assumptions C06_cvo_step.
+
+Theorem C06_cvo_loop : forall (u : nat) (U : nat -> mat2) pats j (L : state) (g : C),
+  Forall (wfp u) pats ->
+  (forall b, get b u = true -> L b = RtoC 0) ->
+  (forall p, In p pats -> forall b, allset p b = true -> L b = RtoC 0) ->
+  (forall i i' p p', (i < i')%nat -> nth_error pats i = Some p -> nth_error pats i' = Some p' -> not_fired p' p) ->
+  forall b, run_pats u U j pats (fun b => L b + g * delta b (eu u))%C b
+            = (L b + loaded U j pats g b + remaining U j pats g * delta b (eu u))%C.
+Proof. intros u U. exact (loop_spec u U). Qed.
+Print Assumptions C06_cvo_loop.
+
+Theorem C06_cvo_gates : forall (U : nat -> mat2) (n : nat) (pats : list (list bool)), pats <> [] ->
+  ordered_b (map (ctl_of n) pats) = true ->
+  forall b,
+  crun U (cvo_gates n false pats) ket0 b
+  = (loaded U 0 (map (ctl_of n) pats) (RtoC 1) (sigma 0 (ctl_of n (last pats [])) b)
+     + remaining U 0 (map (ctl_of n) pats) (RtoC 1) * delta (sigma 0 (ctl_of n (last pats [])) b) (eu 0))%C.
+Proof. exact cvo_gates_ordered. Qed.
+Print Assumptions C06_cvo_gates.
+
+Example ex_ordered : ordered_b (map (ctl_of 3) [[true; false; false]; [false; true; false]; [false; true; true]]) = true.
+Proof. vm_compute. reflexivity. Qed.
